@@ -70,12 +70,29 @@ class _Emu(E.Emu):
         # `try: x = int(<C result text>) ... except ValueError: pass` - the compile-time conversion of a result text fails for everything but a literal:
         # the handler path (taken from the state at the `try`) is a path of its own; the base evaluator only follows the path without an exception
         if isinstance(s, ast.Try) and s.handlers and not s.finalbody and s.body and isinstance(s.body[0], ast.Assign) and isinstance(s.body[0].value, ast.Call) \
-                and isinstance(s.body[0].value.func, ast.Name) and s.body[0].value.func.id in ('int', 'float'):
+                and isinstance(s.body[0].value.func, ast.Name) and s.body[0].value.func.id in ('int', 'float') and len(s.body[0].value.args) == 1 \
+                and isinstance(self.ev(s.body[0].value.args[0], st), E.U) and '.result' in self.ev(s.body[0].value.args[0], st).path:
             o = E.Emu.stmt(self, s, st.copy(), owner, depth)
             for h in s.handlers:
                 r = self.block(h.body, [st.copy()], owner, depth)
                 o.absorb(r)
                 o.normal += r.normal
+            return o
+        if isinstance(s, ast.While) and not s.orelse and not any(
+                isinstance(t, (ast.Attribute, ast.Subscript)) for n in ast.walk(s) if isinstance(n, (ast.Assign, ast.AugAssign))
+                for t in (n.targets if isinstance(n, ast.Assign) else [n.target])):
+            # a while loop that only rebinds locals: zero or more iterations; afterwards those locals are unknown
+            o = E.Out()
+            r = self.block(s.body, [st.copy()], owner, depth)
+            o.returns += r.returns
+            o.stopped += r.stopped
+            outs = [st] + r.normal + r.breaks + r.continues
+            names = sorted({t.id for n in ast.walk(s) if isinstance(n, (ast.Assign, ast.AugAssign))
+                            for t in (n.targets if isinstance(n, ast.Assign) else [n.target]) if isinstance(t, ast.Name)})
+            for s2 in outs:
+                for nm in names:
+                    s2.env[nm] = E.U('?loop:%s@%d' % (nm, s.lineno))
+            o.normal = outs
             return o
         return E.Emu.stmt(self, s, st, owner, depth)
 
@@ -183,7 +200,7 @@ def multi_paste_paths(ix, c, xs, emu_cls=_Emu):
     for entry in ENTRIES:
         if entry not in c.methods:
             continue
-        emu = emu_cls(ix, c, inline=lambda owner, name: owner is c and name not in ENTRIES and name not in OTHER_EMITTERS, unknown_loops='01', max_states=1500)
+        emu = emu_cls(ix, c, inline=lambda owner, name: owner is c and name not in ENTRIES and name not in OTHER_EMITTERS, unknown_loops='01', max_states=400)
         for st, v in emu.run(c, c.methods[entry]):
             texts = list(_texts(st))
             if not texts:
@@ -199,22 +216,26 @@ def multi_paste_paths(ix, c, xs, emu_cls=_Emu):
 
 
 def maker_methods(ix, c, x):
-    """[(owner, method name)] along the MRO (own module only): non-emitting methods that mention a simple-coercion or a simplicity test"""
-    res = []
+    """[(owner, method name)]: the non-emitting methods the class really has (the first definition along the MRO, own module only) that apply a
+    simple-coercion to something related to operand x"""
+    res, names = [], set()
     for k in ix.mro(c):
         if k.module is not c.module or k.name in E.GENERIC_OWNERS:
             continue
         for mname, fn in sorted(k.methods.items()):
+            if mname in names:
+                continue                 # overridden further down
+            names.add(mname)
             if mname.startswith('generate_') or mname in OTHER_EMITTERS:
                 continue
             hit = False
             for n in walk_no_nested(fn):
                 if isinstance(n, ast.Call) and isinstance(n.func, ast.Attribute) and n.func.attr in SIMPLE_COERCIONS:
                     # the coerced value must have something to do with operand x: `self.x`, a parameter / local called x, or an alias of self.x
-                    names = {a.attr for a in ast.walk(n.func.value) if isinstance(a, ast.Attribute)} | {a.id for a in ast.walk(n.func.value) if isinstance(a, ast.Name)}
-                    if x in names or _aliases(fn, x) & names:
+                    used = {a.attr for a in ast.walk(n.func.value) if isinstance(a, ast.Attribute)} | {a.id for a in ast.walk(n.func.value) if isinstance(a, ast.Name)}
+                    if x in used or _aliases(fn, x) & used:
                         hit = True
-            if hit and (k, mname) not in res:
+            if hit:
                 res.append((k, mname))
     return res
 
@@ -320,6 +341,19 @@ def analysis_rows(ix, k, mname, xs, emu_cls=_Emu):
     return rows
 
 
+_TYPEFLAG = re.compile(r'^(.*\.type)\.(is_\w+|signed)$')
+_FEAS_MEMO = {}
+
+
+def _feasible(d, ttable):
+    key = frozenset((k, v) for k, v in d.items() if _TYPEFLAG.match(k))
+    if key not in _FEAS_MEMO:
+        if len(_FEAS_MEMO) > 200000:
+            _FEAS_MEMO.clear()
+        _FEAS_MEMO[key] = P.flags_feasible(dict(key), ttable)
+    return _FEAS_MEMO[key]
+
+
 def _compatible(a, b, ttable):
     for k, v in a.items():
         if k in b and b[k] != v:
@@ -329,7 +363,7 @@ def _compatible(a, b, ttable):
     for k, v in both.items():
         if k.endswith(' is None') and v and both.get(k[:-8]) is True:
             return False
-    return P.flags_feasible(both, ttable)
+    return _feasible(both, ttable)
 
 
 def repaste_witnesses(rows, cpaths, x, ttable):
@@ -341,15 +375,18 @@ def repaste_witnesses(rows, cpaths, x, ttable):
         if r.returns_self:
             uniq.setdefault((frozenset(r.shared.items()), r.simple[x]), r)
     rows = list(uniq.values())
+    # facts of a generator path that no analysis path mentions cannot tell analysis paths apart - except flags of a type some analysis path does mention
+    atoms = {k for r in rows for k in r.shared}
+    tpaths = {m.group(1) for m in (_TYPEFLAG.match(k) for k in atoms) if m}
     seen_cass = set()
     for cp in cpaths:
-        cass = cp[0]
+        cass = {k: v for k, v in cp[0].items() if k in atoms or (k.endswith(' is None') and k[:-8] in atoms) or (_TYPEFLAG.match(k) and _TYPEFLAG.match(k).group(1) in tpaths)}
+        if not _feasible(cp[0], ttable):
+            continue
         kc = (frozenset(cass.items()), cp[2])
         if kc in seen_cass:
             continue
         seen_cass.add(kc)
-        if not P.flags_feasible(cass, ttable):
-            continue
         cand = [r for r in rows if _compatible(cass, r.shared, ttable)]
         for r in cand:
             if r.simple[x]:
@@ -404,27 +441,34 @@ def _repaste_class(r, ix, c, xs, ttable, rel, key_prefix=None):
         n += 1
         cass, ceqs, where, cnt, sample = cpaths[0]
         makers = maker_methods(ix, c, x)
-        if not makers:
+        relevant, undecided = [], []
+        for wk, wm in makers:
+            ck = (wk.qual, wm, tuple(xs))
+            if ck not in _ROWS_CACHE:
+                try:
+                    _ROWS_CACHE[ck] = analysis_rows(ix, wk, wm, xs)
+                except E.Unmodelled as e:
+                    _ROWS_CACHE[ck] = e
+            rows = _ROWS_CACHE[ck]
+            if isinstance(rows, E.Unmodelled):
+                undecided.append('%s.%s: %s' % (wk.name, wm, rows))
+            elif any(r_.returns_self and r_.simple[x] for r_ in rows):
+                relevant.append((wk, wm, rows))
+        if undecided:
+            r.info('not decided: %s (%s)' % (key, '; '.join(undecided)))
+            continue
+        if not relevant:
             r.inst(key, sample='%s: %d multi-paste path(s), no method makes the operand simple' % (key, len(cpaths)))
             r.violate(key, rel, c.methods[where].lineno,
                       '%s.%s pastes self.%s.result() %d times into the C code of one path (e.g. `%s`), but no analysis method or constructor of the class makes '
                       'the operand simple (coerce_to_simple / coerce_to_temp / a test of is_name, is_simple()): a non-simple C operand - a call of a noexcept cdef '
                       'function, an arithmetic expression - is evaluated once per paste' % (c.name, where, x, cnt, sample[:140]))
             continue
-        if len(makers) != 1:
-            r.info('not decided: %s (made simple in several methods: %s)' % (key, ', '.join('%s.%s' % (k.name, mn) for k, mn in makers)))
+        if len(relevant) != 1:
+            r.info('not decided: %s (made simple in several methods: %s)' % (key, ', '.join('%s.%s' % (k.name, mn) for k, mn, _ in relevant)))
             continue
-        wk, wm = makers[0]
-        try:
-            ck = (wk.qual, wm, tuple(xs))
-            if ck not in _ROWS_CACHE:
-                _ROWS_CACHE.clear()
-                _ROWS_CACHE[ck] = analysis_rows(ix, wk, wm, xs)
-            rows = _ROWS_CACHE[ck]
-            wit = repaste_witnesses(rows, cpaths, x, ttable)
-        except E.Unmodelled as e:
-            r.info('not decided: %s (%s.%s: %s)' % (key, wk.name, wm, e))
-            continue
+        wk, wm, rows = relevant[0]
+        wit = repaste_witnesses(rows, cpaths, x, ttable)
         r.inst(key, sample='%s: %d multi-paste path(s) vs %d path(s) of %s.%s' % (key, len(cpaths), len(rows), wk.name, wm))
         seen = set()
         for (cass, ceqs, where, cnt, sample), both in wit:
@@ -441,6 +485,8 @@ def _repaste_class(r, ix, c, xs, ttable, rel, key_prefix=None):
 
 def rule_repaste(ctx, floor=3, modules=('ExprNodes',)):
     ix = ctx.index
+    _ROWS_CACHE.clear()
+    _FEAS_MEMO.clear()
     r = Rule('C20-REPASTE', 'an operand whose C result the code generator of an expression node class (generate_result_code / generate_assignment_code / generate_deletion_code '
              'and their helpers) pastes more than once into the code of one path has been made simple by the class\'s analysis method or constructor under every valuation '
              'of the shared flags that admits the path', floor)
@@ -477,3 +523,549 @@ def rule_repaste(ctx, floor=3, modules=('ExprNodes',)):
                        'operand pasted twice, made simple under a directive only; sizeof() operand not counted')
     return r
 
+
+
+# ================================================================================================================ C20-ERRCONV
+# CPython C-API functions with an int result that is -1 when the call failed with an exception set (docs.python.org/3/c-api: object.html, sequence.html,
+# mapping.html, list.html, dict.html, set.html, bytearray.html, unicode.html - "Return -1 on failure" / "on error").
+ERR_API = frozenset('''
+PyObject_IsInstance PyObject_IsSubclass PyObject_IsTrue PyObject_Not PyObject_RichCompareBool PyObject_SetAttr PyObject_SetAttrString PyObject_DelAttr
+PyObject_DelAttrString PyObject_SetItem PyObject_DelItem PyObject_HasAttrWithError PyObject_HasAttrStringWithError PyObject_Size PyObject_Length
+PyObject_GetBuffer PyObject_Print PyObject_AsFileDescriptor PyObject_GetOptionalAttr PyObject_GetOptionalAttrString
+PySequence_Contains PySequence_Size PySequence_Length PySequence_SetItem PySequence_DelItem PySequence_SetSlice PySequence_DelSlice PySequence_Count
+PySequence_Index PyMapping_Size PyMapping_Length PyMapping_HasKeyWithError PyMapping_HasKeyStringWithError PyMapping_SetItemString
+PyList_Append PyList_Insert PyList_SetSlice PyList_Sort PyList_Reverse PyList_SetItem PyList_Extend PyList_Clear
+PyDict_SetItem PyDict_SetItemString PyDict_DelItem PyDict_DelItemString PyDict_Contains PyDict_ContainsString PyDict_Merge PyDict_Update PyDict_MergeFromSeq2
+PyDict_GetItemRef PyDict_GetItemStringRef PyDict_SetDefaultRef PyDict_Pop PyDict_PopString
+PySet_Add PySet_Discard PySet_Contains PySet_Clear PyByteArray_Resize PyUnicode_Tailmatch PyUnicode_Contains PyTuple_SetItem _PyTuple_Resize _PyBytes_Resize
+PyModule_AddObject PyModule_AddObjectRef PyModule_AddIntConstant PyModule_AddStringConstant PyErr_WarnEx PyErr_WarnFormat PyType_Ready
+'''.split())
+_RAISE = r'(?:PyErr_(?:SetString|Format|SetObject|SetNone|NoMemory|BadArgument|BadInternalCall)|__Pyx_Raise\w*)\s*\((?:[^;()]|\((?:[^;()]|\([^;()]*\))*\))*\)\s*;'
+_RAISE_THEN_NEG = re.compile(_RAISE + r'\s*(?:[^;{}]*;\s*){0,3}?return\s+\(?\s*-\s*\d+\s*\)?\s*;')
+
+
+def helper_fail_evidence(cat, cname, _seen=None):
+    """why the int result of C function `cname` can be an error value with an exception set, or None.  Reference list, else the helper's own C body."""
+    if cname in ERR_API:
+        return 'C-API: %s returns -1 with an exception set when it fails' % cname
+    _seen = _seen or set()
+    if cname in _seen or '{{' in cname:
+        return None
+    _seen.add(cname)
+    try:
+        decls = cat.lookup(cname)
+    except Exception:
+        decls = []
+    for d in decls:
+        if d.kind == 'macro' and d.params is not None:
+            fw = cat.forwarding(d)
+            if fw and fw[0] != cname:
+                why = helper_fail_evidence(cat, fw[0], _seen)
+                if why:
+                    return 'macro %s -> %s; %s' % (cname, fw[0], why)
+            continue
+        if d.kind != 'func' or not d.body or '{{' in d.body:
+            continue
+        if not re.search(r'\b(int|Py_ssize_t|long|Py_UCS4|Py_hash_t)\b', d.ret or ''):
+            continue
+        body = strip_c_comments(d.body)
+        if _RAISE_THEN_NEG.search(body):
+            return '%s (%s:%s) sets an exception and returns a negative literal' % (cname, d.file, d.line)
+        for m in re.finditer(r'\breturn\s+\(?\s*([A-Za-z_]\w*)\s*\(', body):
+            why = helper_fail_evidence(cat, m.group(1), _seen) if m.group(1) != cname else None
+            if why:
+                return '%s (%s:%s) returns the result of %s; %s' % (cname, d.file, d.line, m.group(1), why)
+        if 'PyErr_Clear' not in body:
+            for m in re.finditer(r'\b([A-Za-z_]\w*)\s*=\s*([A-Za-z_]\w*)\s*\(', body):
+                var, callee = m.group(1), m.group(2)
+                if callee != cname and re.search(r'\breturn\s+\(?\s*%s\s*\)?\s*;' % re.escape(var), body):
+                    why = helper_fail_evidence(cat, callee, _seen)
+                    if why:
+                        return '%s (%s:%s) returns the result of %s; %s' % (cname, d.file, d.line, callee, why)
+    return None
+
+
+class _TooManyPaths(Exception):
+    pass
+
+
+class SiteWalker:
+    """Follows the local variables of one function along every path (branches both ways, loops zero or one time) and records, at every typed helper call,
+    the constant C names and the CFuncType declarations that reach it - paired per path."""
+    MAX = 400
+
+    def __init__(self, ix, m, owner, ftypes, fn):
+        self.ix, self.m, self.owner, self.ftypes, self.fn = ix, m, owner, ftypes, fn
+        self.decls = {}
+        self.records = {}        # site Call node -> set of (cname or None, decl key or None)
+
+    # values: ('s', frozenset of str) | ('f', tuple of decl keys) | None
+    def value(self, e, st):
+        env = {k: [ast.Constant(value=s) for s in sorted(v[1])] for k, v in st.items() if v is not None and v[0] == 's'}
+        if isinstance(e, ast.Name):
+            if e.id in st:
+                return st[e.id]
+            ds = self.ftypes.get(('', e.id))          # a module-level function type
+            if ds:
+                for d in ds:
+                    self.decls[d.where] = d
+                return ('f', tuple(sorted({d.where for d in ds})))
+            return None
+        if isinstance(e, ast.IfExp):
+            t = self.truth(e.test, st)
+            if t is not None:
+                return self.value(e.body if t else e.orelse, st)
+            a, b = self.value(e.body, st), self.value(e.orelse, st)
+            if a is not None and b is not None and a[0] == b[0] == 's':
+                return ('s', a[1] | b[1])
+            return None              # two function types under a test that is not understood: not paired with anything
+        strs = const_strs(e, env)
+        if strs is not None:
+            return ('s', frozenset(strs))
+        if typed._is_cfunctype(e) or isinstance(e, ast.Attribute):
+            ds = typed.resolve_functype(self.ix, self.m, self.owner, self.ftypes, e, None, self.fn, e)
+            if ds:
+                keys = []
+                for d in ds:
+                    self.decls[d.where] = d
+                    keys.append(d.where)
+                return ('f', tuple(sorted(set(keys))))
+        return None
+
+    def truth(self, test, st):
+        """a test on a tracked string variable with one value on this path (name == 'X', name != 'X', name in (...)), or None"""
+        if isinstance(test, ast.UnaryOp) and isinstance(test.op, ast.Not):
+            t = self.truth(test.operand, st)
+            return None if t is None else not t
+        if isinstance(test, ast.Compare) and len(test.ops) == 1 and isinstance(test.left, ast.Name):
+            v = st.get(test.left.id)
+            if v is None or v[0] != 's' or len(v[1]) != 1:
+                return None
+            (val,) = v[1]
+            op, c = test.ops[0], test.comparators[0]
+            if isinstance(op, (ast.Eq, ast.NotEq, ast.Is, ast.IsNot)) and isinstance(c, ast.Constant) and isinstance(c.value, str):
+                return (val == c.value) == isinstance(op, (ast.Eq, ast.Is))
+            if isinstance(op, (ast.In, ast.NotIn)) and isinstance(c, (ast.Tuple, ast.List, ast.Set)) and all(isinstance(x, ast.Constant) for x in c.elts):
+                return (val in [x.value for x in c.elts]) == isinstance(op, ast.In)
+        return None
+
+    def sites_in(self, node):
+        for n in ast.walk(node):
+            if isinstance(n, (ast.FunctionDef, ast.Lambda)) and n is not node:
+                continue
+            if isinstance(n, ast.Call):
+                callee = n.func.attr if isinstance(n.func, ast.Attribute) else getattr(n.func, 'id', None)
+                if callee in typed.SITES:
+                    yield n, callee
+
+    def record(self, node, st):
+        for n, callee in self.sites_in(node):
+            ci, fi, ai = typed.SITES[callee]
+            kw = {k.arg: k.value for k in n.keywords if k.arg}
+            cn = n.args[ci] if len(n.args) > ci else kw.get('function_name') or kw.get('cname') or kw.get('name')
+            ft = n.args[fi] if len(n.args) > fi else kw.get('func_type')
+            if cn is None or ft is None:
+                continue
+            cv, fv = self.value(cn, st), self.value(ft, st)
+            names = sorted(cv[1]) if cv is not None and cv[0] == 's' else [None]
+            decls = list(fv[1]) if fv is not None and fv[0] == 'f' else [None]
+            rec = self.records.setdefault(n, set())
+            for a in names:
+                for b in decls:
+                    rec.add((a, b))
+
+    @staticmethod
+    def _freeze(st):
+        return frozenset(st.items())
+
+    def block(self, stmts, states):
+        """-> states that fall through"""
+        cur = states
+        for s in stmts:
+            nxt = {}
+            for st in cur:
+                for o in self.stmt(s, dict(st)):
+                    nxt[self._freeze(o)] = o
+            if len(nxt) > self.MAX:
+                raise _TooManyPaths()
+            cur = list(nxt.values())
+            if not cur:
+                break
+        return cur
+
+    def stmt(self, s, st):
+        if isinstance(s, (ast.FunctionDef, ast.ClassDef, ast.AsyncFunctionDef)):
+            return [st]
+        if isinstance(s, ast.If):
+            self.record(s.test, st)
+            t = self.truth(s.test, st)
+            if t is not None:
+                return self.block(s.body if t else s.orelse, [st])
+            return self.block(s.body, [dict(st)]) + self.block(s.orelse, [dict(st)])
+        if isinstance(s, (ast.For, ast.While)):
+            self.record(s.iter if isinstance(s, ast.For) else s.test, st)
+            inner = dict(st)
+            if isinstance(s, ast.For):
+                for x in ast.walk(s.target):
+                    if isinstance(x, ast.Name):
+                        inner[x.id] = None
+                if isinstance(s.target, ast.Name) and isinstance(s.iter, (ast.Tuple, ast.List)):
+                    vals = [self.value(e, st) for e in s.iter.elts]
+                    if vals and all(v is not None and v[0] == 's' for v in vals):
+                        inner[s.target.id] = ('s', frozenset().union(*[v[1] for v in vals]))
+            once = self.block(s.body, [inner])
+            # a second iteration sees the values the first one left behind
+            twice = self.block(s.body, [dict(o) for o in once]) if once else []
+            out = [st] + once + twice
+            return self.block(s.orelse, out) if s.orelse else out
+        if isinstance(s, ast.Try):
+            body = self.block(s.body, [dict(st)])
+            outs = list(body)
+            for h in s.handlers:
+                outs += self.block(h.body, [dict(st)] + [dict(o) for o in body])
+            if s.orelse:
+                outs = self.block(s.orelse, body) + outs[len(body):]
+            if s.finalbody:
+                outs = self.block(s.finalbody, outs)
+            return outs
+        if isinstance(s, (ast.With, ast.AsyncWith)):
+            for it in s.items:
+                self.record(it.context_expr, st)
+            return self.block(s.body, [st])
+        if isinstance(s, ast.Match):
+            outs = [st]
+            for c in s.cases:
+                outs += self.block(c.body, [dict(st)])
+            return outs
+        self.record(s, st)
+        if isinstance(s, (ast.Return, ast.Raise, ast.Continue, ast.Break)):
+            # `continue` / `break`: the values of this iteration are not carried any further by this walker (the next iteration starts from the loop entry state)
+            return []
+        if isinstance(s, ast.Assign):
+            v = self.value(s.value, st)
+            for t in s.targets:
+                if isinstance(t, ast.Name):
+                    st[t.id] = v
+                elif isinstance(t, (ast.Tuple, ast.List)):
+                    vals = s.value.elts if isinstance(s.value, (ast.Tuple, ast.List)) and len(s.value.elts) == len(t.elts) else None
+                    for i, e in enumerate(t.elts):
+                        for x in ast.walk(e):
+                            if isinstance(x, ast.Name):
+                                st[x.id] = self.value(vals[i], st) if vals is not None and isinstance(e, ast.Name) else None
+        elif isinstance(s, (ast.AugAssign, ast.AnnAssign)):
+            if isinstance(s.target, ast.Name):
+                st[s.target.id] = self.value(s.value, st) if isinstance(s, ast.AnnAssign) and s.value is not None else None
+        elif isinstance(s, ast.Delete):
+            for t in s.targets:
+                if isinstance(t, ast.Name):
+                    st.pop(t.id, None)
+        return [st]
+
+    def run(self):
+        self.block(self.fn.body, [{}])
+        return self.records
+
+
+ERRCONV_MODULES = ('Optimize', 'Builtin', 'ExprNodes', 'ParseTreeTransforms', 'Nodes', 'MatchCaseNodes', 'UtilNodes', 'Dataclass')
+
+
+def typed_site_pairs(ix, modules=ERRCONV_MODULES):
+    """-> [(module, qualname, call node, cname or None, FuncTypeDecl or None)], [functions given up]"""
+    out, gave_up = [], []
+    for ms in modules:
+        m = ix.mod(ms)
+        ftypes = typed.collect_functypes(ix, m)
+        for qn, owner, fn in ix.functions_of(m):
+            if not any(isinstance(n, ast.Call) and (n.func.attr if isinstance(n.func, ast.Attribute) else getattr(n.func, 'id', None)) in typed.SITES for n in walk_no_nested(fn)):
+                continue
+            w = SiteWalker(ix, m, owner, ftypes, fn)
+            try:
+                recs = w.run()
+            except _TooManyPaths:
+                gave_up.append('%s.%s' % (m.short, qn))
+                continue
+            for n, pairs in recs.items():
+                for cname, dk in sorted(pairs, key=lambda p: (p[0] or '', p[1] or ('', 0))):
+                    out.append((m, qn, n, cname, w.decls.get(dk)))
+    return out, gave_up
+
+
+def builtin_error_rows(ix):
+    """C name -> (python name, signature char, error value) for the rows of Builtin.py whose return signature has an error value in TypeSlots.Signature.error_value_map"""
+    from ..engine import tables
+    ts = ix.mod('TypeSlots')
+    sig = ts.classes.get('Signature')
+    emap = None
+    if sig is not None and 'error_value_map' in sig.attrs:
+        emap = tables.literal(sig.attrs['error_value_map'])
+    if not isinstance(emap, dict) or not emap:
+        raise AnalysisError('C20-ERRCONV: TypeSlots.Signature.error_value_map could not be read')
+    m = ix.mod('Builtin')
+    rows = {}
+    for n in ast.walk(m.tree):
+        if isinstance(n, ast.Call) and isinstance(n.func, ast.Name) and n.func.id in ('BuiltinFunction', 'BuiltinMethod') and len(n.args) >= 4:
+            pyname, args, ret, cname = (tables.literal(a) for a in n.args[:4])
+            if isinstance(ret, str) and isinstance(cname, str) and ret[:1] in emap and ret[:1] not in ('O', 'T'):
+                rows[cname] = (pyname, ret, emap[ret[:1]])
+    return rows
+
+
+ERRCONV_POSITIVE = '''
+class T:
+    check_type = PyrexTypes.CFuncType(PyrexTypes.c_bint_type, [PyrexTypes.CFuncTypeArg("o", PyrexTypes.py_object_type, None)])
+    checked_type = PyrexTypes.CFuncType(PyrexTypes.c_bint_type, [PyrexTypes.CFuncTypeArg("o", PyrexTypes.py_object_type, None)], exception_value=-1)
+
+    def handler(self, node, args):
+        ftype = self.check_type
+        if args[0].is_name:
+            fname = "PyList_Check"
+        elif args[0].is_literal:
+            fname = "PySequence_Contains"
+        else:
+            fname = "PySet_Contains"
+            ftype = self.checked_type
+        return ExprNodes.PythonCapiCallNode(node.pos, fname, ftype, args=args)
+'''
+
+
+def _errconv_pairs_of_source(src):
+    """site pairs of the synthetic module (positive control)"""
+    tree = ast.parse(src)
+
+    class M:
+        pass
+    m = M()
+    m.tree, m.rel, m.short = tree, 'pc', 'pc'
+
+    class Ix:
+        def mro(self, c):
+            return [c]
+    cls = tree.body[0]
+
+    class C:
+        pass
+    c = C()
+    c.name, c.module = cls.name, m
+    ftypes = typed.collect_functypes(None, m)
+    fn = [f for f in cls.body if isinstance(f, ast.FunctionDef)][0]
+    w = SiteWalker(Ix(), m, c, ftypes, fn)
+    recs = w.run()
+    return [(cn, w.decls.get(dk)) for n, pairs in recs.items() for cn, dk in pairs]
+
+
+def rule_errconv(ctx, floor=24):
+    ix = ctx.index
+    r = Rule('C20-ERRCONV', 'typed C helper calls built by the tree transforms: a C function that reports failure through its int result (sibling declaration with an error value, '
+             'C-API reference list, or the helper\'s C body) is called through a CFuncType that declares an exception value', floor)
+    pairs, gave_up = typed_site_pairs(ix)
+    for g in gave_up:
+        r.info('not decided: %s (too many paths for the def-use walk)' % g)
+    brow = builtin_error_rows(ix)
+    declared = collections.defaultdict(list)      # cname -> [(exception value text, where)]
+    unresolved = collections.Counter()
+    for m, qn, n, cname, d in pairs:
+        if cname is None or d is None:
+            unresolved['cname' if cname is None else 'functype'] += 1
+            continue
+        if d.exception_value is not None:
+            declared[cname].append((d.exception_value, '%s:%s' % d.where))
+    seen = set()
+    for m, qn, n, cname, d in pairs:
+        if cname is None or d is None or d.ret is None:
+            continue
+        if typed.py_category(d.ret) != 'int':
+            continue
+        key = '%s.%s:%s' % (m.short, qn, cname)
+        if (key, d.where) in seen:
+            continue
+        seen.add((key, d.where))
+        r.inst(key, sample='%s calls %s through %s (exception_value=%s)' % (key, cname, d.ret.rsplit('.', 1)[-1], d.exception_value))
+        if d.exception_value is not None:
+            continue
+        why = None
+        if declared.get(cname):
+            why = 'the same C function is declared with exception_value=%s at %s' % declared[cname][0]
+        elif cname in brow:
+            why = 'Builtin.py declares %s() -> %s with return signature %r, error value %s' % (brow[cname][0], cname, brow[cname][1], brow[cname][2])
+        else:
+            why = helper_fail_evidence(ctx.cat, cname)
+        if why:
+            r.violate(key, m.rel, n.lineno,
+                      '%s.%s calls %s through a CFuncType (%s:%s, return type %s) without exception_value, but the C function reports failure through its result (%s): '
+                      'the generated code does not test the result, the exception stays pending (SystemError "returned a result with an exception set", or the error value is used '
+                      'as a normal result)' % (m.short, qn, cname, d.where[0].rsplit('/', 1)[-1], d.where[1], d.ret.rsplit('.', 1)[-1], why))
+    r.info('unresolved sites (never alarm): %s' % dict(unresolved))
+    pc = _errconv_pairs_of_source(ERRCONV_POSITIVE)
+    bad = {cn for cn, d in pc if d is not None and d.exception_value is None and cn in ERR_API}
+    r.positive_control(bad == {'PySequence_Contains'}, 'PySequence_Contains reaches the call with the unchecked type on one path only; PySet_Contains is paired with the checked type')
+    return r
+
+
+# ================================================================================================================ C20-REUSE
+class _OnceProv(L.Prov):
+    """pC20's provenance interpreter with one difference: `x.is_simple()` / `x.try_is_simple()` is remembered as a fact about x on the path, it does not make
+    x's evaluations disappear (a node whose result is in a temporary is simple, and evaluating it again repeats its side effects)."""
+
+    def branch(self, test, env):
+        if isinstance(test, ast.Call) and isinstance(test.func, ast.Attribute) and test.func.attr in L.SIMPLE_PREDICATES and not test.args:
+            try:
+                tv = self.ev(test.func.value, env)
+            except L.Undecided:
+                tv = None
+            paths = ()
+            if isinstance(tv, L.Src):
+                if tv.simple:
+                    return [(True, env)]
+                paths = (tv.path,)
+            elif isinstance(tv, L.Tree):
+                paths = tuple(sorted({x.path for x, _ in L.flatten(tv.seq)}))
+            k = ('simpletest', ast.unparse(test.func.value), paths)
+            if k in env.attrs:
+                return [(env.attrs[k], env)]
+            et, ef = env.copy(), env.copy()
+            et.attrs[k], ef.attrs[k] = True, False
+            return [(True, et), (False, ef)]
+        return L.Prov.branch(self, test, env)
+
+    def ev_Subscript(self, n, env):
+        sl = n.slice
+        if isinstance(sl, ast.Slice) and sl.lower is None and sl.upper is None and isinstance(sl.step, ast.UnaryOp) and isinstance(sl.step.op, ast.USub) \
+                and isinstance(sl.step.operand, ast.Constant) and sl.step.operand.value == 1:
+            v = self.ev(n.value, env)
+            if isinstance(v, L.ListV) and any(isinstance(i, L.RunItem) and i.asc not in (True, False) for i in v.items):
+                # xs[::-1] of a list filled while iterating something of unknown order: still of unknown order
+                return L.ListV([L.RunItem(i.value, (not i.asc) if i.asc in (True, False) else i.asc) if isinstance(i, L.RunItem) else i for i in reversed(v.items)])
+        return L.Prov.ev_Subscript(self, n, env)
+
+    def ev_Call(self, n, env):
+        f = n.func
+        name = f.attr if isinstance(f, ast.Attribute) else f.id if isinstance(f, ast.Name) else None
+        if name == 'CloneNode':
+            for a in n.args:
+                self.ev(a, env)
+            return L.Tree(())          # refers to the result of a node that is evaluated elsewhere in the tree; evaluates nothing itself
+        return L.Prov.ev_Call(self, n, env)
+
+
+def _is_operand_path(path):
+    return len(path) >= 2 and path[0][0] == 'root'
+
+
+def reuse_counts(seq):
+    """evaluation sequence of a returned tree -> {operand path: (definite weight, possible weight)}.  An operand outside loops counts 1 per occurrence; inside a
+    loop over a source list (the same sub-tree for every element) it counts 2 (one per element, two elements possible); inside a loop over a list of unknown
+    origin it only counts as possible."""
+    out = {}
+    for x, cx in L.flatten(seq):
+        if not _is_operand_path(x.path):
+            continue
+        per_elem = any(st[0] == 'elem' for st in x.path)
+        d = p = 1
+        if cx and not per_elem:
+            if all(asc in (True, False) for _, asc in cx):
+                d = p = 2
+            else:
+                d, p = 0, 2
+        elif cx and per_elem:
+            d = p = 1
+        a, b = out.get(x.path, (0, 0))
+        out[x.path] = (a + d, b + p)
+    return out
+
+
+def reuse_function(fn, class_order, child_attrs):
+    """-> (decided?, number of rewritten results, [(kind, operand text, line, relied-on-is_simple?, sequence text)], note)"""
+    pv = _OnceProv(class_order, child_attrs)
+    env = L.PEnv()
+    params = [a.arg for a in fn.args.args]
+    for p in params[1:] if params and params[0] == 'self' else params:
+        env.vars[p] = L.Src((('root', p),))
+    try:
+        pv.block(fn.body, [env])
+    except L.Undecided as e:
+        return False, 0, [], str(e)
+    n, problems = 0, []
+    for val, line, e in pv.results:
+        if not isinstance(val, L.Tree):
+            continue
+        sq = L._fill_seq(val.seq, {})
+        if any(isinstance(x, L.Hole) for x in sq):
+            return False, 0, [], 'unresolved loop-carried value in the result'
+        n += 1
+        relied = set()
+        for k, v in e.attrs.items():
+            if isinstance(k, tuple) and k and k[0] == 'simpletest' and v is True:
+                relied |= set(k[2])
+        for path, (d, p) in sorted(reuse_counts(sq).items()):
+            if p < 2:
+                continue
+            on_simple = path in relied or any(path[:i] in relied for i in range(2, len(path)))
+            text = ' ; '.join(s.show() for s, _ in L.flatten(sq))
+            if d >= 2 or on_simple:
+                problems.append(('twice', L.Src(path).show(), line, on_simple, text))
+            else:
+                problems.append(('maybe', L.Src(path).show(), line, on_simple, text))
+    return True, n, problems, ''
+
+
+REUSE_POSITIVE = '''
+def _handle_simple_method_list_push(self, node, function, args, is_unbound_method):
+    obj, value = args
+    items = list(value.args)
+    target = obj
+    if not obj.is_simple():
+        target = UtilNodes.LetRefNode(obj)
+    new_node = ExprNodes.PythonCapiCallNode(node.pos, "push", self.push_type, args=[target, items[-1]])
+    for item in items[-2::-1]:
+        new_node = ExprNodes.binop_node(node.pos, '|', ExprNodes.PythonCapiCallNode(node.pos, "push", self.push_type, args=[target, item]), new_node)
+    if target is not obj:
+        new_node = UtilNodes.EvalWithTempExprNode(target, new_node)
+    return new_node
+'''
+
+
+def rule_reuse(ctx, floor=10, modules=('Optimize',)):
+    ix = ctx.index
+    r = Rule('C20-REUSE', 'temp-wrapping tree rewrites: an operand sub-tree of the original node that the returned tree evaluates at more than one position is established as a '
+             'plain name or literal on that path (is_name / is_literal) or moved into a LetRefNode/ResultRefNode; is_simple() is no licence - it holds for temporaries too', floor)
+    co = L._ClassOrder(ix)
+    child_attrs = set()
+    for c in ix.node_classes():
+        for nm in ('subexprs', 'child_attrs'):
+            lst = ix.class_list_attr(c, nm)
+            if lst is not None and lst[1]:
+                child_attrs |= set(lst[1])
+    if len(child_attrs) < 100:
+        raise AnalysisError('C20-REUSE: only %d child attribute names found in the node classes' % len(child_attrs))
+    for ms in modules:
+        m = ix.mod(ms)
+        for qn, owner, fn in ix.functions_of(m):
+            if owner is None:
+                continue
+            uses = [n for n in walk_no_nested(fn) if isinstance(n, ast.Call) and (
+                (isinstance(n.func, ast.Attribute) and n.func.attr in L.TEMP_CTORS) or (isinstance(n.func, ast.Name) and n.func.id in L.TEMP_CTORS))]
+            if not uses:
+                continue
+            key = '%s.%s' % (m.short, qn)
+            decided, n, problems, note = reuse_function(fn, co, child_attrs)
+            if not decided:
+                r.info('not decided: %s (%s)' % (key, note))
+                continue
+            r.inst(key, sample='%s: %d rewritten result(s)' % (key, n), nontrivial=n > 0)
+            seen = set()
+            for kind, what, line, on_simple, text in sorted(problems, key=lambda p: (p[0] != 'twice', len(p[4]), p[1])):
+                if what in seen:
+                    continue
+                seen.add(what)
+                if kind == 'twice':
+                    r.violate('%s:%s-evaluated-again' % (key, what), m.rel, line,
+                              '%s builds a tree that evaluates the operand %s at more than one position (evaluation sequence: %s)%s: the operand\'s evaluation code runs once per '
+                              'position, its calls and attribute lookups are repeated' % (
+                                  key, what, text[:300], ', relying on %s.is_simple() - which is also true for a node whose result lives in a temporary '
+                                  '(attribute lookup, conditional expression, comprehension, a cast around one of them)' % what if on_simple else ''))
+                else:
+                    r.info('not decided: %s may evaluate %s more than once (only inside a loop over a list of unknown origin)' % (key, what))
+    pc = ast.parse(REUSE_POSITIVE).body[0]
+    d, n, probs, note = reuse_function(pc, co, child_attrs)
+    r.positive_control(d and any(k == 'twice' and w == 'args[0]' and s for k, w, l, s, t in probs), 'list expression reused for every item under is_simple()')
+    return r
